@@ -104,6 +104,8 @@ func evRender(lets []evLet, kinds map[string]string) string {
 			e = a(0) + ".b"
 		case "mapt":
 			e = a(0) + " -> <sequence of int>(e:\n" + ind + "  entry = e\n" + ind + "  k = e.key\n" + ind + "  w = e.value + " + a(1) + "\n" + ind + ")"
+		case "tset":
+			e = a(0) + " -> <set of int>(x:\n" + ind + "  id = x\n" + ind + "  twice = x * 2\n" + ind + "  tag = " + a(1) + "\n" + ind + ")"
 		case "tform", "tconst":
 			coll := "sequence of"
 			if kinds[l.V] == "set" {
@@ -184,7 +186,7 @@ func runEvalView(in, out string, _ []string) error {
 				}
 			} else if l.Op == "lcat" {
 				k = "list"
-			} else if l.Op == "union" {
+			} else if l.Op == "union" || l.Op == "tset" {
 				k = "set"
 			} else if l.Op == "lit" {
 				k = l.Args[0].Lit.K
